@@ -127,8 +127,9 @@ func TestC12(t *testing.T) {
 	}
 	if r.Only < 0 {
 		racingLookups(t, r)
+		rollbacks(t, r)
 	}
-	r.Require("handles_from_racing_lookups", "reads_validated", "reads_after_close", "polls_completed", "lookups_during_reads", "expiry_sweeps", "parked_probes_completed", "reader_serial_transitions", "read_after_poll_checks", "handles_obtained_during_poll")
+	r.Require("rollback_polls", "handles_from_racing_lookups", "reads_validated", "reads_after_close", "polls_completed", "lookups_during_reads", "expiry_sweeps", "parked_probes_completed", "reader_serial_transitions", "read_after_poll_checks", "handles_obtained_during_poll")
 	r.Rule("stress repetitions: 16 reader goroutines over handles of 3 declared + up to 4 looked-up secrets, concurrent with a background poller on a fast ticker, explicit Refresh callers, a service that keeps installing new values, lookups of fresh names, expiry sweeps driven by an injected clock, then Close with readers continuing; every read validated. Parked-request probes: while a poll/lookup/initial request is parked in the service, every handle is called 100 times. Distinct = (reader serial transition kind x concurrent event) and probe kinds")
 }
 
@@ -419,9 +420,17 @@ func parkedProbe(t *testing.T, r *evid.Run, idx int) {
 	case "poll-last-request":
 		target = len(names) - 1
 	}
+	release2 := make(chan struct{})
+	parked2 := make(chan string, 8)
 	w.svc.Behave = func(q *fakesvc.Req) fakesvc.Behaviour {
 		if !armed {
 			return fakesvc.Behaviour{}
+		}
+		if q.Name == "p/stale" {
+			// nobody has any business asking for this one during the probed operation; if somebody does,
+			// that request is parked as well, and handles are probed again while it is
+			parked2 <- q.Name
+			return fakesvc.Behaviour{Hold: release2}
 		}
 		if kind == "lookup" {
 			if q.Name == "p/late" {
@@ -543,7 +552,44 @@ func parkedProbe(t *testing.T, r *evid.Run, idx int) {
 		}
 	}
 	close(release)
-	<-opDone
+	// while the operation finishes, a request for the stale cached secret may show up (it must not block anybody)
+	select {
+	case <-opDone:
+	case <-parked2:
+		r.Count("second_gate_probes", 1)
+		done2 := make(chan struct{})
+		go func() {
+			defer close(done2)
+			for i := 0; i < 50; i++ {
+				for _, h := range handles {
+					h.Get()
+				}
+				if lateHandle != nil {
+					lateHandle.Get()
+				}
+			}
+		}()
+		select {
+		case <-done2:
+		case <-time.After(5 * time.Second):
+			buf := make([]byte, 1<<20)
+			buf = buf[:runtime.Stack(buf, true)]
+			dump := string(buf)
+			if strings.Contains(dump, "sync.(*Mutex).Lock") && strings.Contains(dump, "client/setec.(*Store)") {
+				if len(dump) > 6000 {
+					dump = dump[:6000]
+				}
+				r.Violation("handle-waits-for-service", idx, fmt.Sprintf("probe %d (%s): while the store was waiting for the service about a secret pinned during the poll, handle calls could not complete", idx, kind), map[string]any{"stacks": dump})
+			} else {
+				r.Inconclusive(fmt.Sprintf("probe %d: second prober slow", idx))
+			}
+		}
+		close(release2)
+		<-opDone
+		<-done2
+	}
+	armed = false
+	r.Count("second_gate_probes", 0)
 	<-proberDone
 	if lateHandle != nil {
 		func() {
@@ -612,4 +658,46 @@ func racingLookups(t *testing.T, r *evid.Run) {
 		}
 	}
 	r.Distinct("racing lookups then poll")
+}
+
+// rollbacks: the service's active version number can go DOWN (an operator re-activates an older version).
+// Once a poll has completed, handles return what that poll fetched, not what was there before.
+func rollbacks(t *testing.T, r *evid.Run) {
+	for i, n := 0, r.N(200, 2000); i < n; i++ {
+		r.Eval(1)
+		rng := r.Rand(uint64(3_000_000 + i))
+		svc := fakesvc.New()
+		v1, v2 := []byte(fmt.Sprintf("one-%d", i)), []byte(fmt.Sprintf("two-%d", i))
+		fromCache := rng.IntN(2) == 0
+		var cache *fakesvc.MonCache
+		if fromCache {
+			// the start-up cache supplies version 2; while the process was down the operator went back to version 1
+			doc, _ := json.Marshal(map[string]any{"s": map[string]any{"secret": map[string]any{"Value": v2, "Version": 2}, "lastAccess": "0"}})
+			cache = &fakesvc.MonCache{Initial: doc}
+			svc.Set("s", 1, v1)
+		} else {
+			svc.Set("s", 2, v2)
+			cache = &fakesvc.MonCache{}
+		}
+		st, err := setec.NewStore(context.Background(), setec.StoreConfig{Client: svc, Secrets: []string{"s"}, Cache: cache, PollInterval: -1, Logf: func(string, ...any) {}})
+		if err != nil {
+			t.Fatal(err)
+		}
+		h := st.Secret("s")
+		if string(h.Get()) != string(v2) {
+			r.Violation("never-served-value", -1, fmt.Sprintf("rollback case %d: before the poll the handle yields %q, want %q", i, h.Get(), v2), nil)
+		}
+		svc.Set("s", 1, v1)
+		if err := st.Refresh(context.Background()); err != nil {
+			t.Fatal(err)
+		}
+		r.Count("rollback_polls", 1)
+		if got := string(h.Get()); got != string(v1) {
+			r.Violation("stale-after-completed-poll", -1, fmt.Sprintf("rollback case %d (start-up value from cache: %t): the service re-activated version 1 and a poll completed, yet the handle still yields %q", i, fromCache, got), nil)
+			st.Close()
+			return
+		}
+		st.Close()
+	}
+	r.Distinct("rollback then poll")
 }
